@@ -11,6 +11,12 @@ CHECKS = {
         text="Every scalar conversion kernel (Boolean/Integer/Float) is translated from the MIR of the current tree and the solver decides injectivity, refusal of lossy values, round trip and monotonicity for all 2^64 inputs (pairs: 2^128); the type-level wrappers are run concretely on a boundary grid of source types and the solver searches the whole source type for a value whose conversion leaves the returned type. Bounded by: scalar variants only, grid of source types.",
         note="Trusted: lib/mir.py translation + callee table (validated on concrete points against the real injections every run), rustc's MIR printer, cvc5/z3. Outside: ->Text/Bytes, Date/Time kernels (chrono), composite liftings.",
         design="3 C12"),
+    "C18": dict(
+        level="model_checking", engine="M (MIR->SMT) + driver replay",
+        technique="SMT over MIR-translated bodies: panic conditions of all numeric function kernels, size arithmetic of Map/Reduce/Join/Set as an inductive step with havocked inputs, Intervals<i64>::values_len; replay through the real API",
+        text="Kernel-level totality: for all 64-bit / double inputs the panic condition of every numeric kernel of function.rs is decided, NaN production at finite inputs is decided for the non-transcendental float kernels; the size arithmetic of each relation constructor is checked for every input size >= 0 and every LIMIT/OFFSET (one inductive step covers relation trees of any depth); values_len is checked against the hull width for every interval. Pipeline-level totality (sqlparser, builders, todo!()) is outside.",
+        note="Trusted: MIR translation + callee table + stubs listed in evidence (from_interval panics iff min>max; input sizes arbitrary with 0<=max). Every counterexample is replayed through Function::value/super_image or SQL->Relation before being reported.",
+        design="3 C18"),
 }
 
 NOT_APPLICABLE = {
@@ -33,7 +39,6 @@ NOT_YET = {
     "C13": "not built yet",
     "C14": "not built yet",
     "C15": "not built yet",
-    "C18": "not built yet",
 }
 
 
